@@ -62,6 +62,12 @@ func loadOnce(src string) (o outcome, perr error) {
 	case r := <-ch:
 		return r.o, r.err
 	case <-time.After(30 * time.Second):
+		if os.Getenv("VERIF_REPLAY") == "" {
+			// the load is still spinning and holds the state: nothing more can be learned in this process (shrinking would
+			// only measure the lock).  The case being run is in the journal; the driver replays it in a fresh process.
+			fmt.Println("LoadString had not returned after 30 s; leaving so that the journalled case is replayed")
+			os.Exit(3)
+		}
 		return o, fmt.Errorf("LoadString had not returned after 30 s")
 	}
 }
@@ -159,6 +165,7 @@ func init() {
 	chkLayout.Journal = true
 	chkValid.Journal = true
 	chkRepeat.Journal = true
+	chkGlue.Journal = true
 }
 
 func classify(k *vf.C, c *LoadCase, o outcome) {
